@@ -11,15 +11,15 @@
   first), `Gen.WF g` = representation invariant (holds for everything `create`/`profile` return, see
   `created_wf`), `Gen.abs g = ⟨all, rem⟩` the abstract cursor.
 
-  The text argument iterator (mptcore/meta/iterator_string.c) is modelled in Impl/IterString.lean and tied to
-  the code by the correspondence run (documented loop over number lists, reset, clone at the start); two
-  known defects of the real code are modelled as they are and proved as counterexamples below.
+  Also modelled and tied by the correspondence run: the text argument iterator (Impl/IterString.lean,
+  mptcore/meta/iterator_string.c), the buffer argument iterator over `char` arrays, `mpt_iterator_consume`,
+  `mpt_range_set` and the iterator-argument forms of the linear/range/factor creators (Impl/IterArgs.lean).
 
-  NOT modelled (no theorem, no correspondence): the buffer iterator (mptcore/array/meta_buffer.c),
-  `mpt_iterator_consume` and the iterator-argument forms of the creators that use it, `file` profiles.
+  NOT modelled: `file` profiles, buffer iterators over non-`char` content, element types other than
+  `double`/`uint32` in `mpt_iterator_consume`.
 -/
-import MptModel.Lemmas.Iter2
-import MptModel.Impl.IterString
+import MptModel.Lemmas.IterArgsLemmas
+import MptModel.Lemmas.IterBufLemmas
 
 namespace Mpt.C19
 open Mpt Mpt.Iter Mpt.IterSpec
@@ -249,60 +249,125 @@ theorem malformed_refused (s : List Char) :
 example : IterSpec.certainlyMalformed "linx(4 : 0 1)".toList = true ∧ create "lin(4 : 0 1".toList = none
     ∧ create "lin(4  : 0 1)".toList = none ∧ create "lin(0 : 0 1)".toList = none := by decide +kernel
 
-/-! ### Text argument iterator: known defects (findings `string-past-end`, `string-clone`) -/
+/-! ### Canonical descriptions are accepted -/
 
-/-- the documented loop on a text argument iterator: read (convert to a number), advance -/
-def strWalk : Nat → StrIt → List Rat × StrIt
-  | 0, it => ([], it)
-  | fuel + 1, it =>
-    match it.conv with
-    | (it1, .ok v) =>
-      match it1.advance with
-      | (it2, .more) => ((strWalk fuel it2).1.cons v, (strWalk fuel it2).2)
-      | (it2, _) => ([v], it2)
-    | (it1, _) => ([], it1)
+/-- **Accepted**: every text of the canonical description grammar (Spec/IterGrammar.lean: `lin(n : a b)`,
+    `range(a b : s)`, `fac(n:b:f:i)` with their optional fields and blanks, and blank-separated number
+    lists) whose meaning the grammar fixes is accepted by `mpt_iterator_create` and the generator denotes
+    exactly that sequence — count and values — from its first element on, and satisfies the invariant of the
+    protocol theorems. -/
+theorem accepted (s : List Char) (d : Desc) (den : Den) (h : recognise s = some d) (hd : d.den = some den) :
+    ∃ g, create s = some g ∧ g.all = den.elems ∧ g.rem = g.all ∧ g.WF :=
+  accept_any s d den h hd
 
-/-- on a plain number list the documented loop yields the numbers (instance; the general statement is
-    `string_walk_statement`) -/
-theorem string_walk_example :
-    (strWalk 9 (StrIt.create (some "1,2;3 4".toList) none)).1 = [1, 2, 3, 4] := by decide +kernel
+example : recognise "Linear( 16 : 1 3 )".toList = some (.lin 16 1 3) ∧ recognise "fac(3:2::1)".toList = none := by
+  decide +kernel
 
-/-- **Counterexample (finding `string-past-end`)**: after the documented loop has ended, converting the
-    element again does not report the end: the converter answers "consumed" (0) without a value, which
-    `mpt_value_convert` passes on as success. -/
-theorem string_past_end_counterexample :
-    ∃ it : StrIt, it.pos = none ∧ it.conv.2 = .none0 :=
-  ⟨(strWalk 9 (StrIt.create (some "1 2".toList) none)).2, by decide +kernel, by decide +kernel⟩
+/-- a number token of the grammar is read by the `strtod` subset of the model to exactly its value, and the
+    scan stops right behind it (the lemma behind `accepted`) -/
+theorem number_scanned (t rest : List Char) (v : Rat) (h : strictNumber t = some v) (hs : Stops rest) :
+    cdouble (t ++ rest) = .ok v rest :=
+  cdouble_strict t rest v h hs
 
-/-- **Counterexample (finding `string-clone`)**: a clone taken after the current element was read is an
-    iterator over the empty text — it yields nothing where the original still yields `1, 2, 3`. -/
-theorem string_clone_counterexample :
-    (strWalk 9 (StrIt.create (some "1 2 3".toList) none).conv.1).1 = [1, 2, 3] ∧
-    (strWalk 9 (StrIt.create (some "1 2 3".toList) none).conv.1.clone).1 = [] := by decide +kernel
+/-! ### Text argument iterator (mptcore/meta/iterator_string.c) -/
 
-/-- **Clone, the part that holds**: a clone taken before anything was read or advanced (fresh or reset
-    iterator) is an equal state. -/
-theorem string_clone_partial (it : StrIt) (h0 : it.pos = some 0) (h1 : it.restore = none)
-    (h2 : it.endNull = false) (h3 : it.patched = false) : it.clone = it := by
-  obtain ⟨sep, text, pos, e, r, p⟩ := it
-  simp only [] at h0 h1 h2 h3
-  subst h0; subst h1; subst h2; subst h3
-  simp [StrIt.clone, StrIt.create]
+/-- **The documented loop on a text argument**: for a text of number tokens separated by single characters
+    that cannot continue a number (blank, comma, semicolon, …), reading and advancing yields exactly the
+    numbers, in order. -/
+theorem string_walk (pairs : List (List Char × Char)) (last sep : List Char) (vs : List Rat) (vl : Rat)
+    (hp : ∀ p ∈ pairs, SepChar p.2) (hv : pairs.map (fun p => strictNumber p.1) = vs.map some)
+    (hl : strictNumber last = some vl) (fuel : Nat) (hf : pairs.length < fuel) :
+    (strWalk fuel (StrIt.create (some (sepJoin pairs last)) (some sep))).1 = vs ++ [vl] :=
+  strWalk_from pairs last vs vl hp hv hl [] sep fuel hf
 
-/-- stated, not proved: on every text that is a list of numbers separated by single separator characters the
-    documented loop yields exactly these numbers -/
-def string_walk_statement : Prop :=
-  ∀ (text sep : List Char) (vs : List Rat),
-    IterSpec.allSome ((IterSpec.splitOn ' ' text).map IterSpec.strictNumber) = some vs → vs ≠ [] →
-    (strWalk (text.length + 1) (StrIt.create (some text) (some sep))).1 = vs
+example : (strWalk 9 (StrIt.create (some "1,2;3 4".toList) none)).1 = [1, 2, 3, 4] := by decide +kernel
 
-/-! ### Stated, not proved (tied to the code by the correspondence run only) -/
+/-- **Past the end of a text argument**: no value (NULL), a conversion of the retained element reports
+    MissingData, and `advance` reports "no further element" once and an error from then on. -/
+theorem string_past_end (s : StrIt) (h : s.pos = none) :
+    s.hasValue = false ∧ s.conv.2 = .err .MissingData ∧
+    (s.endNull = false → s.advance.2 = .last ∧ s.advance.1.advance.2 = .err .MissingData) ∧
+    (s.endNull = true → s.advance.2 = .err .MissingData) := by
+  refine ⟨by simp [StrIt.hasValue, h], by simp [StrIt.conv, StrIt.convWith, h], ?_, ?_⟩
+  · intro he; simp [StrIt.advance, he, h]
+  · intro he; simp [StrIt.advance, he]
 
-/-- every canonical description (Spec/IterGrammar.lean) whose meaning the documentation fixes is accepted and
-    denotes exactly that sequence.  The model driver checks this per script (`S ok`), it is not proved:
-    it needs the equivalence of the strict number grammar with the `strtod` subset of the model. -/
-def accepted_statement : Prop :=
-  ∀ (s : List Char) (d : Desc) (den : Den), recognise s = some d → d.den = some den →
-    ∃ g, create s = some g ∧ g.all = den.elems
+/-- **Reset and clone of a text argument**: `reset` restores the state of a freshly created iterator (so the
+    loop replays the whole text), a clone is an equal state. -/
+theorem string_reset_clone (s : StrIt) :
+    s.reset.1 = { s with pos := some 0, endNull := false, restore := none, patched := false } ∧ s.clone = s :=
+  ⟨rfl, rfl⟩
+
+/-! ### `mpt_iterator_consume` and the iterator-argument forms of the creators -/
+
+/-- **Consume**: on a value generator `mpt_iterator_consume(it, 'd', …)` delivers the current element and
+    moves to the next one; past the end it reports MissingData and nothing is delivered. -/
+theorem consume_gen (g : Gen) (h : g.WF) :
+    (g.rem = [] → (Src.gen g).consumeD.2 = .err .MissingData) ∧
+    (∀ v t, g.rem = v :: t → ∃ g', (Src.gen g).consumeD = (.gen g', .ok v) ∧ g'.rem = t) := by
+  obtain ⟨a, b, c⟩ := value_sim g h
+  constructor
+  · intro he
+    have : g.value.2 = none := by rw [a]; simp [Gen.abs, Cur.value, he]
+    simp only [Src.consumeD]
+    cases hq : g.value with
+    | mk g1 r => rw [hq] at this; simp only [] at this; subst this; rfl
+  · intro v t he
+    have hv : g.value.2 = some v := by rw [a]; simp [Gen.abs, Cur.value, he]
+    obtain ⟨d1, d2, _⟩ := advance_sim g.value.1 c
+    have hb : g.value.1.abs = { all := g.all, rem := v :: t } := by rw [b]; simp [Gen.abs, he]
+    rw [hb] at d1 d2
+    simp only [Cur.advance] at d1 d2
+    simp only [Src.consumeD]
+    cases hq : g.value with
+    | mk g1 r =>
+      rw [hq] at hv d1 d2; simp only [] at hv d1 d2; subst hv
+      cases hr : g1.advance with
+      | mk g2 res =>
+        rw [hr] at d1 d2; simp only [] at d1 d2
+        have hrem : g2.rem = t := congrArg Cur.rem d1
+        cases res with
+        | err e => simp only [advClass] at d2; split at d2 <;> cases d2
+        | more => exact ⟨g2, by simp only [hr], hrem⟩
+        | last => exact ⟨g2, by simp only [hr], hrem⟩
+
+/-- **Linear generator from an argument iterator**: fed with the text `n a b` (any single separator
+    characters) `_mpt_iterator_linear` makes the same generator as the description `lin(n : a b)`. -/
+theorem linear_from_argument (sep n ta tb : List Char) (c1 c2 : Char) (k : Nat) (va vb : Rat)
+    (hn : strictCount n = some k) (ha : strictNumber ta = some va) (hb : strictNumber tb = some vb)
+    (h1 : SepChar c1) (h2 : SepChar c2) :
+    (linFromIter (.str (StrIt.create (some (n ++ c1 :: (ta ++ c2 :: tb))) (some sep)))).2
+      = mkLinear (wrap32 (k + 1)) va vb :=
+  linFromIter_text sep n ta tb c1 c2 k va vb hn ha hb h1 h2
+
+/-- **Factor generator from an argument iterator** with count and base: the factor is the base, as for
+    the description `fac(n:b)`; a base below `DBL_MIN` is refused. -/
+theorem factor_from_argument (sep n tb : List Char) (c1 : Char) (k : Nat) (vb : Rat)
+    (hn : strictCount n = some k) (hb : strictNumber tb = some vb) (h1 : SepChar c1) :
+    (facFromIter (.str (StrIt.create (some (n ++ c1 :: tb)) (some sep)))).2
+      = (if vb < dblMin then none else some (.factor vb vb 0 (wrap32 (k + 1)) 0 0)) :=
+  facFromIter_text2 sep n tb c1 k vb hn hb h1
+
+example : ((facFromIter (.str (StrIt.create (some "3 2".toList) none))).2.map Gen.all) = some [0, 2, 4, 8] := by
+  decide +kernel
+
+/-! ### Buffer argument iterator (mptcore/array/meta_buffer.c over a `char` array) -/
+
+/-- **The documented loop on a buffer argument**: over an array of NUL-terminated strings the iterator made by
+    `mpt_meta_buffer` yields exactly these strings, in order; a clone is an equal state. -/
+theorem buffer_walk (cur : List Char) (more : List (List Char)) (fuel : Nat)
+    (hc : nul ∉ cur) (hm : ∀ s ∈ more, nul ∉ s) (hf : more.length < fuel) :
+    bufWalk fuel (BufIt.create (some (joinNul (cur :: more))) false) = (cur :: more).map .str ∧
+    ∀ b : BufIt, b.clone = b := by
+  rw [create_first cur more hc]
+  exact ⟨bufWalk_from false cur more [] fuel hc hm hf, fun _ => rfl⟩
+
+example : bufWalk 9 (BufIt.create (some ("cmd".toList ++ nul :: "a".toList ++ nul :: "bb".toList ++ [nul])) true)
+    = [.str "a".toList, .str "bb".toList] := by decide +kernel
+
+/-- past the last string `advance` reports "no further element", then an error; there is no value -/
+theorem buffer_past_end (pre cur : List Char) (args : Bool) :
+    ((bufAt args pre cur []).advance).2 = .last ∧ ((bufAt args pre cur []).advance).1.value = .null :=
+  bufAt_advance_last args pre cur
 
 end Mpt.C19
